@@ -1,6 +1,7 @@
 """Per-property checks: scenario families, what is decided by which part of
 the specification, verdict + evidence."""
 import argparse
+import zlib
 import json
 import os
 import random
@@ -16,7 +17,7 @@ import scen_gen as S
 
 def fam_seq(tier, seed, tag, nruns, nops, shaped=0.5, weights=None, geoms=None, sweep_every=4):
     """sequential histories over the geometry families and image shapes"""
-    rng = random.Random(seed * 7919 + hash(tag) % 1000)
+    rng = random.Random(seed * 7919 + zlib.crc32(tag.encode()) % 1000)
     G = S.geoms(tier)
     names = geoms or list(G.keys())
     out = []
@@ -39,7 +40,7 @@ def fam_seq(tier, seed, tag, nruns, nops, shaped=0.5, weights=None, geoms=None, 
 
 def fam_backing(tier, seed, tag, nruns, nops, comp=True):
     """images with backing chains and compressed clusters (COW sources)"""
-    rng = random.Random(seed * 104729 + hash(tag) % 1000)
+    rng = random.Random(seed * 104729 + zlib.crc32(tag.encode()) % 1000)
     G = S.geoms(tier)
     names = [n for n in G if n not in ("G5",)]
     out = []
@@ -58,6 +59,73 @@ def fam_backing(tier, seed, tag, nruns, nops, comp=True):
                               weights=dict(write=45, read=15, discard=10, flush=10, reopen=5, shrink=3),
                               reopen_params=S.alt_params(geo))
         out.append(S.mk(f"{tag}-{gname}-{i}", geo, images, steps))
+    return out
+
+
+def fam_conc(tier, seed, tag, nruns, geoms=("G1", "G2", "G2k", "G4"), policies=("random", "pct"), groups=2,
+             maxops=4, with_flush=True, backing=False):
+    """concurrent groups: sets of 2..maxops calls that overlap in time,
+    scheduled by seeded random / PCT policies at every suspension point"""
+    rng = random.Random(seed * 15485863 + zlib.crc32(tag.encode()) % 1000)
+    G = S.geoms(tier)
+    out = []
+    for i in range(nruns):
+        gname = geoms[i % len(geoms)]
+        geo = G[gname]
+        bpc = 1 << (geo["cb"] - geo["bsb"])
+        if backing:
+            images = [S.image_shaped(rng, geo, 1, frac=0.2, kinds=("data", "zero", "comp")),
+                      S.image_shaped(rng, geo, 2, frac=0.6, kinds=("data", "zero"))]
+        else:
+            images = [S.image_shaped(rng, geo, 1, frac=rng.choice([0.0, 0.2]), kinds=("data", "zero", "zero_prealloc"))]
+        steps = []
+        # prelude
+        for _ in range(rng.randrange(0, 4)):
+            gb, n = S.rand_range(rng, geo)
+            steps.append({"op": "write", "gb": gb, "n": n})
+        if rng.random() < 0.6:
+            steps.append({"op": "flush"})
+        if rng.random() < 0.3:
+            steps.append({"op": "shrink"})
+        for g in range(groups):
+            ops = []
+            nops = rng.randrange(2, maxops + 1)
+            # a focus cluster that several calls hit
+            fc = rng.randrange(geo["vclusters"])
+            for k in range(nops):
+                r = rng.random()
+                if r < 0.5:
+                    if rng.random() < 0.6:
+                        # sub-range of / around the focus cluster
+                        gb = fc * bpc + rng.randrange(bpc)
+                        n = rng.randrange(1, bpc + 2)
+                    else:
+                        gb, n = S.rand_range(rng, geo)
+                    n = max(1, min(n, geo["vclusters"] * bpc - gb))
+                    ops.append({"op": "write", "gb": gb, "n": n})
+                elif r < 0.7:
+                    gb = fc * bpc
+                    n = min(bpc * rng.randrange(1, 3), geo["vclusters"] * bpc - gb)
+                    if rng.random() < 0.5:
+                        gb, n = S.rand_range(rng, geo)
+                    ops.append({"op": "read", "gb": gb, "n": n})
+                elif r < 0.8:
+                    gb = max(0, fc - rng.randrange(0, 2)) * bpc
+                    n = min(bpc * rng.randrange(1, 3), geo["vclusters"] * bpc - gb)
+                    ops.append({"op": "discard", "gb": gb, "n": n})
+                elif r < 0.93 and with_flush:
+                    ops.append({"op": "flush"})
+                elif with_flush:
+                    ops.append({"op": "shrink"})
+                else:
+                    gb, n = S.rand_range(rng, geo)
+                    ops.append({"op": "read", "gb": gb, "n": n})
+            steps.append({"op": "par", "ops": ops})
+            steps.append({"op": "sweep"})
+        steps += [{"op": "flush"}, {"op": "sweep"}, {"op": "reopen"}, {"op": "sweep"}]
+        pol = policies[i % len(policies)]
+        out.append(S.mk(f"{tag}-{gname}-{i}", geo, images, steps,
+                        sched={"policy": pol, "seed": rng.randrange(1 << 30)}))
     return out
 
 
@@ -297,7 +365,24 @@ def check_C05(chk):
                       BASE_ASSUME)
 
 
-CHECKS = {"C04": check_C04, "C05": check_C05, "C01": check_C01, "C02": check_C02, "C03": check_C03, "C16": check_C16}
+def check_C06(chk):
+    n = 120 if chk.tier == "quick" else 3000
+    scens = fam_conc(chk.tier, chk.seed, "c06", n)
+    scens += fam_conc(chk.tier, chk.seed, "c06b", n // 4, backing=True)
+    res, st = Q.run_batch(scens, chk.wd, known=chk.known_tags(), par=14)
+    chk.consume(res, st, props=("C06", "C01", "C02"))
+    for name, r in res.items():
+        if r["summary"].get("max_conc", 0) >= 2:
+            chk.nontrivial.add(json.dumps(r["summary"].get("sched")))
+    chk.extra["schedules"] = len(chk.nontrivial)
+    return chk.finish("model_checking",
+                      "groups of 2-4 overlapping calls (same-cluster sub-ranges, overlapping, disjoint, flush/shrink/discard) under seeded random and "
+                      "PCT schedules at every suspension point; TLC searches the placements of per-block linearization points (normalised to sit "
+                      "immediately before a Ret); non-trivial = distinct schedule in which >= 2 calls were in flight together",
+                      BASE_ASSUME)
+
+
+CHECKS = {"C06": check_C06, "C04": check_C04, "C05": check_C05, "C01": check_C01, "C02": check_C02, "C03": check_C03, "C16": check_C16}
 
 
 def main():
@@ -313,6 +398,9 @@ def main():
         Q.build_harness()
         chk = Check(a.prop, a.tier, a.seed)
         chk.wd = Q.workdir(a.prop)
+        if not a.replay:
+            import shutil
+            shutil.rmtree(os.path.join(Q.VERIF, "replays", a.prop), ignore_errors=True)
         if a.replay:
             body = json.load(open(a.replay))
             res, st = Q.run_batch([body["scenario"]], chk.wd, known=chk.known_tags(), par=1,
